@@ -3,9 +3,12 @@ package modes
 import (
 	"context"
 	"encoding/json"
+	"errors"
 	"fmt"
 	"net"
 	"os"
+	"path/filepath"
+	"strconv"
 	"sync/atomic"
 	"time"
 
@@ -31,14 +34,36 @@ func readReplayCase(path string) ([]byte, error) {
 
 var srvSeq int64
 
+// freePort asks the kernel for a free port and reserves it against the other harness processes that
+// run at the same time (parallel child processes, several checks at once): between the moment the
+// probe socket is closed and the moment the library's listener binds the port, another process that
+// asks the same question can be given the same answer, and its clients then talk to the wrong server.
+// The reservation is a file created exclusively under the temporary directory, honoured for a minute.
 func freePort() (*net.TCPAddr, error) {
-	ln, err := net.Listen("tcp", "127.0.0.1:0")
-	if err != nil {
-		return nil, err
+	dir := filepath.Join(os.TempDir(), "limeverif-ports")
+	_ = os.MkdirAll(dir, 0o777)
+	for try := 0; try < 50; try++ {
+		ln, err := net.Listen("tcp", "127.0.0.1:0")
+		if err != nil {
+			return nil, err
+		}
+		a := ln.Addr().(*net.TCPAddr)
+		lock := filepath.Join(dir, strconv.Itoa(a.Port))
+		if st, err := os.Stat(lock); err == nil && time.Since(st.ModTime()) < time.Minute {
+			ln.Close()
+			continue // reserved by another process a moment ago
+		}
+		_ = os.Remove(lock)
+		f, err := os.OpenFile(lock, os.O_CREATE|os.O_EXCL|os.O_WRONLY, 0o666)
+		if err != nil {
+			ln.Close()
+			continue
+		}
+		f.Close()
+		ln.Close()
+		return a, nil
 	}
-	a := ln.Addr().(*net.TCPAddr)
-	ln.Close()
-	return a, nil
+	return nil, errors.New("no free port could be reserved")
 }
 
 // startServer builds the server from the builder with one listener of the given transport
